@@ -6,6 +6,11 @@ HERE = os.path.dirname(os.path.dirname(os.path.abspath(__file__)))
 ALL = ["C%02d" % i for i in range(1, 21)]
 
 CLAIMED = {
+ "C19": dict(
+   technique="TLA+ model RefGraph.tla of reference-counting reclamation, run by TLC on the ownership graph recorded from the real objects of each call for every order of dropping the caller's handles; the same histories measured on the real objects with the cyclic collector disabled; model and measurement must agree",
+   text="For every functional (rootfinder, equilibrium, minimize, solve_ivp, quad, mcquad, jac, hess, solve, symeig, svd, Interp1D, SQuad) x method x function kind x history {forward only, +backward, +graph-recording backward and second backward} the objects reachable from the returned handles are recorded as a graph (interpreter-reported strong references plus tensor -> grad_fn, restricted to objects created by the call); TLC explores all drop orders with pure reference counting and reports any call-allocated tensor that stays live, naming its holders; the same history is executed with gc disabled and the number of live torch.Tensor objects compared before / after one call and after three more calls. A leak the measurement shows is a violation (explained by the model's offending edge); a leak only the model shows is treated as a failure of the extractor, never reported as a violation.",
+   design_ref="5.13, 6 (C19)",
+   note="Trusted: TLC/SANY, gc.get_referents as edge oracle (C++-only references invisible: the measurement is the ground truth), one warm-up call. Quick: first two method option sets, kinds pure/edit/nn for the default method."),
  "C18": dict(
    technique="TLA+ case-table model Dispatch.tla of method selection for the ten functionals, enumerated exhaustively by TLC with the predicted outcome per row; every row executed on the real functional; caller-supplied callables probed (arguments, options, gradient mode) and their first/second-order gradients compared with a built-in method",
    text="TLC enumerates every (functional, class of the method argument {None, exact name, mixed-case name, unknown string, callable, non-callable}, built-in name) row (118 rows) and checks case-insensitivity, rejection of unknown names / non-callables, acceptance of callables and that defaults are built-ins; the deviation 'name compared before lower-casing' is caught. Each row is executed: the real functional must accept/reject exactly as predicted. For each functional a closed-form (graph-free) or wrapping callable is supplied: it must receive the documented positional arguments and the caller's extra forward option, never the backward options, run with gradient recording disabled (implicit-gradient functionals), and the value and the first- and second-order gradients must equal those of a built-in method reaching the same solution; a callable given only in bck_options must be used, with its options, in the backward pass.",
